@@ -1001,7 +1001,7 @@ class SymExec:
             return ("len", args[0])
         if name == "cozy_chess_types::square::Square::bitboard":
             return ("bbof", args[0])
-        if name == "<cozy_chess_types::color::Color as core::ops::Not>::not":
+        if name.startswith("<cozy_chess_types::color::Color as core::ops::") and name.endswith("Not>::not"):
             a = args[0]
             if a[0] == "enum":
                 return ("enum", a[1], "Black" if a[2] == "White" else "White")
